@@ -149,4 +149,45 @@ def asSetT (s : RSt) (t : Ty) : Except XErr View :=
   | .float => if s.data = [] then .ok ⟨false, false, []⟩ else .error (.base .typeError)
   | .bad => .error (.base .valueError)
 
+/-! ### further readers of a range: `str()`, `repr()`, `obj[k]`, `==` against a freshly parsed
+range, `obj.data`.  Functions of the state alone: no new state is returned. -/
+
+inductive RRead
+  | str | repr | idx (k : Nat) | eqFresh | data
+deriving Repr, DecidableEq
+
+inductive RAns
+  | text (s : Str) | bool (b : Bool) | member (i : Intf) | members (l : List Intf)
+deriving Repr, DecidableEq
+
+/-- `"[" + ", ".join(str(ii) for ii in self.data) + "]"` -/
+def strOfR (d : List Intf) : Except Err Str :=
+  match d.mapM render with
+  | .ok ns => .ok ('[' :: join ", ".toList ns ++ [']'])
+  | .error e => .error e
+
+def memberType : Str := "<class 'ciscoconfparse2.ccp_util.CiscoIOSInterface'>".toList
+
+/-- `repr(obj)`; `rtName` is how the constructor's `result_type` prints (only shown when empty) -/
+def reprOfR (rtName : Str) (d : List Intf) : Except Err Str :=
+  if d = [] then .ok ("<CiscoRange [] result_type: ".toList ++ rtName ++ ['>'])
+  else match strOfR d with
+    | .ok s => .ok ("<CiscoRange ".toList ++ s ++ " members: ".toList ++ memberType ++ ['>'])
+    | .error e => .error e
+
+/-- `self.data == other.data` : lists compare member by member with `__eq__` -/
+def listEq : List Intf → List Intf → Bool
+  | [], [] => true
+  | a :: as, b :: bs => eq a b && listEq as bs
+  | _, _ => false
+
+def readR (rtName : Str) (fresh : List Intf) (s : RSt) : RRead → Except Err RAns
+  | .str => (strOfR s.data).map .text
+  | .repr => (reprOfR rtName s.data).map .text
+  | .idx k => (match s.data[k]? with
+      | some m => .ok (.member m)
+      | none => .error .indexError)
+  | .eqFresh => .ok (.bool (listEq s.data fresh))
+  | .data => .ok (.members s.data)
+
 end Ccp.IntfX
